@@ -49,6 +49,7 @@ func Tool() {}
 
 const goWrapScript = `#!/bin/sh
 # fails (VT_GOFAIL=<subcommand>) or stalls (VT_GOPAUSE=<subcommand>, marker file VT_GOMARK, until VT_GORELEASE exists) one go subcommand
+if [ -n "$VT_GOLIFT" ]; then ulimit -f unlimited 2>/dev/null; fi
 if [ -n "$VT_GOFAIL" ] && [ "$1" = "$VT_GOFAIL" ]; then echo "injected failure of go $1" >&2; exit 1; fi
 if [ -n "$VT_GOPAUSE" ] && [ "$1" = "$VT_GOPAUSE" ]; then
   : > "$VT_GOMARK"
@@ -100,6 +101,8 @@ func diffSnap(a, b map[string]string) string {
 	}
 	return strings.Join(d, ",")
 }
+
+func fileExists(p string) bool { _, err := os.Stat(p); return err == nil }
 
 const ignoreLine = "//go:build ignore\n"
 
@@ -311,6 +314,41 @@ func c09(c *Ctx) {
 		os.Remove(filepath.Join(proj, "mage_output_file.go"))
 		os.Remove(mark)
 		os.RemoveAll(cacheDir)
+	}
+
+	// crash point: the process dies at the first byte it writes to the generated file (created, still empty); then a
+	// normal run in the same directory
+	if crash := filepath.Join(os.Getenv("VERIF_BIN"), "crashmage"); fileExists(crash) {
+		for i := 0; i < 1+c.N/40; i++ {
+			d := filepath.Join(root, fmt.Sprintf("crash%d", i))
+			gen := d
+			files := map[string]string{"go.mod": goMod("c09crash"), "magefile.go": "//go:build mage\n\npackage main\n\nimport \"fmt\"\n\nfunc Ok() { fmt.Println(\"CALL ok\") }\n", "keep.txt": "keep\n"}
+			if i%2 == 1 {
+				gen = filepath.Join(d, "magefiles")
+				files = map[string]string{"go.mod": goMod("c09crash"), "magefiles/magefile.go": "package main\n\nimport \"fmt\"\n\nfunc Ok() { fmt.Println(\"CALL ok\") }\n", "keep.txt": "keep\n"}
+			}
+			writeFiles(d, files)
+			cacheDir := filepath.Join(root, fmt.Sprintf("ccache%d", i))
+			runEnv := append([]string{}, env...)
+			for k, e := range runEnv {
+				if strings.HasPrefix(e, "MAGEFILE_CACHE=") {
+					runEnv[k] = "MAGEFILE_CACHE=" + cacheDir
+				}
+			}
+			before := snapshot(d)
+			cr := runCmd(d, append(append([]string{}, runEnv...), "VT_GOLIFT=1"), crash, "-gocmd", goWrap, "ok")
+			leftover := classifyMain(gen, fullSize)
+			rr := runCmd(d, runEnv, mageBin, "ok")
+			after := snapshot(d)
+			in := J{"op": "c09.run", "fault": "none", "keep": false, "force": false, "hashfast": false, "cached": false, "leftover": leftover, "target": 0, "word": "ok"}
+			impl := J{"status": rr.status, "main": classifyMain(gen, fullSize), "others": diffSnap(before, after), "ran": strings.Contains(rr.stdout, "CALL ok")}
+			if rr.status != 0 {
+				impl["stderr"] = strings.TrimSpace(rr.stderr)
+			}
+			c.Emit(in, impl, "class=killed-at-first-write", "leftover="+leftover, fmt.Sprintf("crash-status=%d", cr.status))
+			os.RemoveAll(d)
+			os.RemoveAll(cacheDir)
+		}
 	}
 
 	// -init
